@@ -18,8 +18,11 @@ NoD == [m |-> 0, s |-> -1]
 Account == "Assets:Src"
 Ccy == "CHF"
 
-\* entry: [cd |-> "CRDT"|"DBIT", amt, vday, bday, details |-> Seq([amt, charge, rev])]
-\* a detail has its own direction: rev = TRUE means opposite to the entry's (a refund inside a batch of payments)
+\* entry: [cd |-> "CRDT"|"DBIT", amt, vday, bday, charge, details |-> Seq([amt, charge, rev, figures])]
+\* a detail has its own direction: rev = TRUE means opposite to the entry's (a refund inside a batch of payments);
+\* a charge is included in the amount it stands next to (a detail's, or the entry's own when it has no details);
+\* figures = TRUE: the statement also shows the amount before charges (AmtDtls) - what the other party got is the
+\* same either way, amount minus charge
 Signed(cd, v) == IF cd = "CRDT" THEN v ELSE DecNeg(v)
 RECURSIVE SumAmt(_, _)
 SumAmt(ds, i) == IF i > Len(ds) THEN DZero ELSE DecAdd(IF ds[i].rev THEN DecNeg(ds[i].amt) ELSE ds[i].amt, SumAmt(ds, i + 1))
@@ -37,7 +40,7 @@ Txn(e, cd, amt, charge, ref) ==
    dest |-> DecNeg(Signed(cd, DecSub(amt, charge))),     \* counter posting: what the other party got
    assert |-> NoD]
 TxnsOfEntry(e, k) ==
-  IF e.details = <<>> THEN <<Txn(e, e.cd, e.amt, DZero, "")>>
+  IF e.details = <<>> THEN <<Txn(e, e.cd, e.amt, e.charge, "")>>
   ELSE [j \in 1..Len(e.details) |-> Txn(e, IF e.details[j].rev THEN Flip(e.cd) ELSE e.cd, e.details[j].amt, e.details[j].charge,
                                         "R" \o ToString(k) \o "-" \o ToString(j))]
 RECURSIVE Flatten(_, _)
